@@ -64,7 +64,7 @@ fn compressed<const N: usize>() {
     // with Kani's memory-safety checks on
 }
 
-// @harness props=C14,C01 tier=quick mem=5 t=900 fn="name::wire::parse_compressed_name,name::wire::parse_pointer,name::new_boxed_name,Name::wire_repr,Name::wire_repr_from,Name::wire_repr_to,<Name as Index>::index"
+// @harness props=C14,C01 tier=quick mem=5 t=900 kani="--no-assertion-reach-checks" fn="name::wire::parse_compressed_name,name::wire::parse_pointer,name::new_boxed_name,Name::wire_repr,Name::wire_repr_from,Name::wire_repr_to,<Name as Index>::index"
 //   bound="every buffer of exactly 3 octets (all 2^24), every start offset 0..=N+1 (so at and beyond the end); unwind 5"
 //   stubs="S7"
 //   sym="buf:[u8;3], start<=4"
@@ -75,7 +75,7 @@ fn c14_compressed_len3() {
     compressed::<3>();
 }
 
-// @harness props=C14,C01 tier=quick mem=8 t=1200 fn="name::wire::parse_compressed_name,name::wire::parse_pointer,name::new_boxed_name"
+// @harness props=C14 panics=C14,C01 tier=quick mem=8 t=1200 kani="--no-assertion-reach-checks" fn="name::wire::parse_compressed_name,name::wire::parse_pointer,name::new_boxed_name"
 //   bound="every buffer of exactly 4 octets (all 2^32), every start offset 0..=N+1 (so at and beyond the end); unwind 6"
 //   stubs="S7"
 //   sym="buf:[u8;4], start<=5"
@@ -86,7 +86,7 @@ fn c14_compressed_len4() {
     compressed::<4>();
 }
 
-// @harness props=C14,C01 tier=thorough mem=10 t=2400 fn="name::wire::parse_compressed_name,name::wire::parse_pointer,name::new_boxed_name"
+// @harness props=C14,C01 tier=thorough mem=10 t=2400 kani="--no-assertion-reach-checks" fn="name::wire::parse_compressed_name,name::wire::parse_pointer,name::new_boxed_name"
 //   bound="every buffer of exactly 5 octets (all 2^40), every start offset 0..=N+1 (so at and beyond the end); unwind 7"
 //   stubs="S7"
 //   sym="buf:[u8;5], start<=6"
@@ -97,7 +97,7 @@ fn c14_compressed_len5() {
     compressed::<5>();
 }
 
-// @harness props=C14,C01 tier=thorough mem=14 t=3400 fn="name::wire::parse_compressed_name,name::wire::parse_pointer,name::new_boxed_name"
+// @harness props=C14,C01 tier=thorough mem=14 t=3400 kani="--no-assertion-reach-checks" fn="name::wire::parse_compressed_name,name::wire::parse_pointer,name::new_boxed_name"
 //   bound="every buffer of exactly 6 octets, every start offset 0..=N+1 (so at and beyond the end); unwind 8"
 //   stubs="S7"
 //   sym="buf:[u8;6], start<=7"
@@ -108,7 +108,7 @@ fn c14_compressed_len6() {
     compressed::<6>();
 }
 
-// @harness props=C14,C01 tier=thorough mem=12 t=3000 fn="name::wire::parse_compressed_name,name::wire::parse_pointer,name::new_boxed_name"
+// @harness props=C14,C01 tier=thorough mem=12 t=3000 kani="--no-assertion-reach-checks" fn="name::wire::parse_compressed_name,name::wire::parse_pointer,name::new_boxed_name"
 //   bound="every buffer of exactly 7 octets, every start offset 0..=N+1 (so at and beyond the end); unwind 9"
 //   stubs="S7"
 //   sym="buf:[u8;7], start<=8"
@@ -151,7 +151,7 @@ fn uncompressed<const N: usize>() {
     kani::cover!(matches!(s, Ok(n) if n >= 3 && b[n - 2] >= 0xc0), "skip ended at a pointer after a label");
 }
 
-// @harness props=C14,C01 tier=quick mem=3 t=300 fn="name::wire::validate_uncompressed_name,name::wire::skip_compressed_name"
+// @harness props=C14,C01 tier=quick mem=3 t=300 kani="--no-assertion-reach-checks" fn="name::wire::validate_uncompressed_name,name::wire::skip_compressed_name"
 //   bound="every buffer of every length 0..=8 (symbolic length, all octet values); unwind 10"
 //   sym="buf:[u8;8], len:usize<=8"
 #[kani::proof]
@@ -160,7 +160,7 @@ fn c14_validate_skip_len8() {
     uncompressed::<8>();
 }
 
-// @harness props=C14,C01 tier=thorough mem=4 t=900 fn="name::wire::validate_uncompressed_name,name::wire::skip_compressed_name"
+// @harness props=C14,C01 tier=thorough mem=4 t=900 kani="--no-assertion-reach-checks" fn="name::wire::validate_uncompressed_name,name::wire::skip_compressed_name"
 //   bound="every buffer of every length 0..=14 (symbolic length, all octet values); unwind 16"
 //   sym="buf:[u8;14], len:usize<=14"
 #[kani::proof]
@@ -191,7 +191,7 @@ fn parse_unc<const N: usize>() {
     }
 }
 
-// @harness props=C14,C01 tier=quick mem=3 t=300 fn="name::wire::parse_uncompressed_name,name::new_boxed_name"
+// @harness props=C14,C01 tier=quick mem=3 t=300 kani="--no-assertion-reach-checks" fn="name::wire::parse_uncompressed_name,name::new_boxed_name"
 //   bound="every buffer of exactly 5 octets, use_all symbolic; unwind 7" sym="buf:[u8;5], use_all"
 #[kani::proof]
 #[kani::unwind(7)]
@@ -199,7 +199,7 @@ fn c14_parse_uncompressed_len5() {
     parse_unc::<5>();
 }
 
-// @harness props=C14,C01 tier=quick mem=3 t=300 fn="name::wire::parse_uncompressed_name,name::new_boxed_name"
+// @harness props=C14,C01 tier=quick mem=3 t=300 kani="--no-assertion-reach-checks" fn="name::wire::parse_uncompressed_name,name::new_boxed_name"
 //   bound="every buffer of exactly 2 octets, use_all symbolic; unwind 4" sym="buf:[u8;2], use_all"
 #[kani::proof]
 #[kani::unwind(4)]
@@ -207,10 +207,123 @@ fn c14_parse_uncompressed_len2() {
     parse_unc::<2>();
 }
 
-// @harness props=C14,C01 tier=thorough mem=6 t=1200 fn="name::wire::parse_uncompressed_name,name::new_boxed_name"
+// @harness props=C14,C01 tier=thorough mem=6 t=1200 kani="--no-assertion-reach-checks" fn="name::wire::parse_uncompressed_name,name::new_boxed_name"
 //   bound="every buffer of exactly 8 octets, use_all symbolic; unwind 10" sym="buf:[u8;8], use_all"
 #[kani::proof]
 #[kani::unwind(10)]
 fn c14_parse_uncompressed_len8() {
     parse_unc::<8>();
+}
+
+// ---------------------------------------------------------------------------
+// Long names: the 63-octet label and 255-octet name boundaries.
+//
+// A 270-octet buffer holds three 63-octet labels, a fourth label whose length
+// octet `l` is SYMBOLIC (all 256 values: valid lengths, the 0x40/0x80 reserved
+// forms and pointers), zero-filled label contents, and the root label; total
+// wire length 194 + l, so l = 61 is the longest acceptable name (255 octets)
+// and l = 62 the shortest unacceptable one (256).  At offset 262 a second name
+// "label(1) + pointer to offset 0" gives a compressed name of 196 + l octets.
+// ---------------------------------------------------------------------------
+
+fn long_buf(l: u8) -> [u8; 270] {
+    let mut b = [0u8; 270];
+    b[0] = 63;
+    b[64] = 63;
+    b[128] = 63;
+    b[192] = l;
+    b[262] = 1;
+    b[263] = b'p';
+    b[264] = 0xc0;
+    b[265] = 0x00;
+    b
+}
+
+// @harness props=C14,C01 tier=quick mem=3 t=600 kani="--no-assertion-reach-checks" fn="name::wire::validate_uncompressed_name,name::wire::skip_compressed_name"
+//   bound="270-octet buffer, three 63-octet labels + a fourth label of symbolic length octet (all 256 values); wire lengths 194..=257 incl. the 255/256 boundary; unwind 8"
+//   sym="l:u8 (length octet of the fourth label)"
+#[kani::proof]
+#[kani::unwind(8)]
+fn c14_long_validate_skip() {
+    let l: u8 = kani::any();
+    let b = long_buf(l);
+    let e = ref_uncompressed(&b);
+    let v = validate_uncompressed_name(&b, false);
+    match (&v, &e) {
+        (Ok(n), Ok(en)) => assert!(*n == *en, "[C14] validate_uncompressed length equals the reference's (long names)"),
+        (Err(_), Err(_)) => {}
+        _ => assert!(false, "[C14] validate_uncompressed acceptance differs from the reference (long names)"),
+    }
+    let s = skip_compressed_name(&b);
+    let es = ref_skip(&b);
+    match (&s, &es) {
+        (Ok(n), Ok(en)) => assert!(*n == *en, "[C14] skip_compressed length equals the reference's (long names)"),
+        (Err(_), Err(_)) => {}
+        _ => assert!(false, "[C14] skip_compressed acceptance differs from the reference (long names)"),
+    }
+    // the name that starts with a label and continues through a pointer
+    let s2 = skip_compressed_name(&b[262..]);
+    assert!(matches!(s2, Ok(4)), "[C14] skip_compressed stops after the pointer of a two-chunk name");
+    kani::cover!(l == 61 && matches!(v, Ok(255)), "255-octet name accepted");
+    kani::cover!(l == 62 && v.is_err(), "256-octet name rejected");
+    kani::cover!(l == 64 && s.is_err(), "64-octet label rejected");
+}
+
+// @harness props=C14,C01 tier=quick mem=6 t=900 kani="--no-assertion-reach-checks" fn="name::wire::parse_uncompressed_name,name::new_boxed_name"
+//   bound="same 270-octet long-name buffer, symbolic fourth length octet; acceptance, consumed length and wire length vs the reference; unwind 8"
+//   sym="l:u8"
+#[kani::proof]
+#[kani::unwind(8)]
+fn c14_long_parse_uncompressed() {
+    let l: u8 = kani::any();
+    let b = long_buf(l);
+    let e = ref_uncompressed(&b);
+    let r = parse_uncompressed_name(&b, false);
+    match (&r, &e) {
+        (Ok((name, n)), Ok(en)) => {
+            assert!(*n == *en, "[C14] try_from_uncompressed length equals the reference's (long names)");
+            assert!(name.wire_repr().len() == *en, "[C14] long name has the reference's wire length");
+            assert!(name.len() == if l == 0 { 4 } else { 5 }, "[C14] long name has the reference's label count");
+        }
+        (Err(_), Err(_)) => {}
+        _ => assert!(false, "[C14] try_from_uncompressed acceptance differs from the reference (long names)"),
+    }
+    kani::cover!(l == 61 && r.is_ok(), "255-octet name parsed");
+    kani::cover!(l == 62 && r.is_err(), "256-octet name rejected");
+    core::mem::forget(r);
+}
+
+// @harness props=C14,C01 tier=thorough mem=12 t=2400 kani="--no-assertion-reach-checks" fn="name::wire::parse_compressed_name,name::wire::parse_pointer,name::new_boxed_name"
+//   bound="same 270-octet long-name buffer; start 0 (one chunk, 194+l octets) and start 262 (label + pointer, 196+l octets); symbolic fourth length octet; unwind 8 (real ArrayVec::try_extend_from_slice)"
+//   sym="l:u8"
+#[kani::proof]
+#[kani::unwind(8)]
+fn c14_long_parse_compressed() {
+    let l: u8 = kani::any();
+    let b = long_buf(l);
+    let e = ref_uncompressed(&b);
+    let r = parse_compressed_name(&b, 0);
+    let plain = l < 64; // the fourth label is an ordinary label
+    match (&r, &e) {
+        (Ok((name, n)), Ok(en)) => {
+            assert!(*n == *en, "[C14] first-chunk length equals the reference's (long names)");
+            assert!(name.wire_repr().len() == *en, "[C14] long compressed-parse name has the reference's wire length");
+        }
+        (Err(_), Err(_)) => {}
+        (Ok(_), Err(_)) => assert!(false, "[C14] try_from_compressed accepts a long name the reference rejects"),
+        (Err(_), Ok(_)) => assert!(false, "[C14] try_from_compressed rejects a long name the reference accepts"),
+    }
+    let r2 = parse_compressed_name(&b, 262);
+    let ok2 = plain && (2 + 194 + l as usize) <= 255;
+    if plain {
+        assert!(r2.is_ok() == ok2, "[C14] label + pointer name accepted iff its uncompressed length is <= 255");
+    }
+    if let Ok((name2, n2)) = &r2 {
+        assert!(*n2 == 4, "[C14] first chunk of label + pointer is 4 octets");
+        assert!(name2.wire_repr().len() == 2 + 194 + l as usize, "[C14] label + pointer name has the summed wire length");
+    }
+    kani::cover!(l == 59 && r2.is_ok(), "255-octet name through a pointer accepted");
+    kani::cover!(l == 60 && r2.is_err(), "256-octet name through a pointer rejected");
+    core::mem::forget(r);
+    core::mem::forget(r2);
 }
